@@ -52,12 +52,39 @@ class StmtMixin:
         if c is not None and c.asserts and self.spec_depth == 0 and self.inline_depth == 0:
             kind = type(s).__name__
             for a in c.asserts:
-                if a.stmt == kind and self.stmt_ordinals.get(id(s)) == a.nth:
+                if a.stmt != kind:
+                    continue
+                if getattr(a, 'test', None) is not None:
+                    hit = self.test_ordinal(s, a.test) == a.nth
+                else:
+                    hit = self.stmt_ordinals.get(id(s)) == a.nth
+                if hit:
                     self.asserts_seen.add(id(a))
                     t = self.eval_contract_expr(st, a.expr, None, self.pre_state)
                     self.oblige(st, t, 'assert', a.label, carries=a.carries, node=s,
                                 info={'claim': 'at %s #%d: %s' % (kind, a.nth, a.expr)})
         return m(st, s)
+
+    def test_ordinal(self, s, text):
+        """Ordinal of statement s among the statements of its kind in the function whose test has the
+        given source text (None when the test of s is another one)."""
+        t = getattr(s, 'test', None)
+        if t is None:
+            return None
+        try:
+            if ast.unparse(t) != text:
+                return None
+        except Exception:
+            return None
+        if not hasattr(self, '_test_ord_cache'):
+            self._test_ord_cache = {}
+        key = (id(self.fn.node), type(s).__name__, text)
+        if key not in self._test_ord_cache:
+            found = [n for n in ast.walk(self.fn.node) if type(n) is type(s) and getattr(n, 'test', None) is not None
+                     and ast.unparse(n.test) == text]
+            found.sort(key=lambda n: (n.lineno, n.col_offset))
+            self._test_ord_cache[key] = {id(n): k for k, n in enumerate(found)}
+        return self._test_ord_cache[key].get(id(s))
 
     def exec_Pass(self, st, s):
         return [st]
